@@ -116,6 +116,9 @@ def run_detect(case):
             # long sheets: REM lines before the FILE line (legal anywhere, ignored)
             f.write("".join("REM comment line %04d %s\n" % (k, "x" * 40) for k in range(case.get("preamble", 0))))
             f.write(Q.cue_text("disc.bin", tracks))
+            for j in range(case.get("more_files", 0)):
+                # one bin per track, the way mixed-mode discs are usually dumped: the data track lives in the first FILE
+                f.write('FILE "audio%02d.bin" BINARY\n  TRACK %02d AUDIO\n    INDEX 00 00:00:00\n    INDEX 01 00:02:00\n' % (j + 2, len(tracks) + j + 1))
         def go():
             img = tree.open_image(p)
             return type(img).__name__, tree.ls(img, "")
@@ -148,7 +151,7 @@ class Check(CheckBase):
             "through the printed names, identical exported trees (paths + bytes); cue dispatch: all combinations of "
             "AUDIO/MODE1/2352/MODE2/2352 modes over <=3 tracks; long sheets: n titled audio tracks (+ a data track last) for "
             "every n<=98, k comment lines before FILE for every k<300 (thorough <1200) and 5000, 20000; an all-audio sheet "
-            "lists exactly its tracks; the sheet named DISC.CUE / Disc.Cue / disc.CUE / with a blank / with two dots. non-trivial = image with >=1 exported file")
+            "lists exactly its tracks; sheets with 1, 2, 5 further FILE entries (one bin per track) after the data track's; the sheet named DISC.CUE / Disc.Cue / disc.CUE / with a blank / with two dots. non-trivial = image with >=1 exported file")
     assumptions = ["MODE1/2352 and MDX writers follow the layouts in DESIGN appendix A"]
 
     def shards(self):
@@ -186,6 +189,10 @@ class Check(CheckBase):
                 if k == 3 and self.quick and t[0] != "AUDIO":
                     continue
                 det.append({"fmt": "detect", "modes": list(t), "data": not all(m.upper() == "AUDIO" for m in t)})
+        # sheets with further FILE entries after the one that holds the data track
+        for first in (["MODE1/2352"], ["MODE2/2352"], ["mode1/2048"]):
+            for more in (1, 2, 5):
+                det.append({"fmt": "detect", "modes": first, "data": True, "more_files": more})
         # the sheet's own file name written the way other systems write it
         for nm in ("DISC.CUE", "Disc.Cue", "disc.CUE", "my disc.cue", "disc.v2.cue"):
             for k in (1, 2):
